@@ -15,6 +15,12 @@
 // vector<pair> with std::string keys and std::string or arithmetic mapped values, KDirBase): the
 // API walks the caller's container itself; a simple processor's exporter must see exactly what it
 // held, classes <processor>:container-direct:<container type>.
+// Processors are also handed to the provider in the middle of a case, while a record made by
+// CreateLogRecord() is waiting to be emitted (LoggerProvider::AddProcessor; a provider with one
+// processor grows to two, a provider built without processors gets its first ones).  Every
+// exporter that was configured when the record was CREATED must see it exactly once and intact;
+// whether an exporter added between creation and emit sees it is not judged (counted); it must
+// see every record created after it was added.  (Seeded change C13-w4-2.)
 // Engine E2 (tsan + shim, --param mode=mt): 1..4 threads with their own scope stacks emit into
 // shared processors; records are matched by an id attribute; correlation must be with the
 // emitting thread's active span at record creation.
@@ -1842,6 +1848,9 @@ struct Pending
   RecPtr rec;
   Model m;
   size_t logger = 0;
+  // what the provider held when the record was created: sinks[0..nsinks) must receive it
+  size_t nsinks = 0;
+  size_t nprocs = 0;
 };
 
 template <class F>
@@ -1875,6 +1884,12 @@ struct CaseEnv
   bool allow_noname   = true;
   std::string desc;
   int conf_variant = 0;
+  // Processors handed to the provider after it was built (seq mode, SeqCase::run decides when).
+  // sinks[0..attached) belong to processors the provider holds; nprocs = its top-level processors.
+  size_t attached  = 0;
+  size_t nprocs    = 0;
+  bool build_empty = false;  // build the provider without processors, they all arrive later
+  std::vector<std::unique_ptr<sdklogs::LogRecordProcessor>> withheld;
 
   std::unique_ptr<sdklogs::LogRecordProcessor> make_proc(Rng &r, bool batch, bool multi)
   {
@@ -1944,6 +1959,14 @@ struct CaseEnv
       procs.pop_back();
       desc += "+late";
     }
+    if (build_empty)
+    {
+      withheld = std::move(procs);
+      procs.clear();
+      if (late)
+        withheld.push_back(std::move(late));
+      desc += " built-empty";
+    }
     // resource: values from buffers that die right after Create
     res_marker            = "res-" + r.bytes(8, "abcdef0123456789");
     sdkres::Resource res = with_killed(r, {res_marker, "c13-harness"}, [&](std::vector<nostd::string_view> &v) {
@@ -1970,6 +1993,7 @@ struct CaseEnv
                                   sdklogs::LoggerConfig::Enabled())
                               .Build()));
     desc += " conf" + std::to_string(conf_variant);
+    nprocs = procs.size();
     provider.reset(new sdklogs::LoggerProvider(std::move(procs), res, std::move(conf)));
     res_ptr = &provider->GetResource();
     // loggers
@@ -1997,13 +2021,52 @@ struct CaseEnv
       loggers.push_back(li);
     }
     if (late)
+    {
       provider->AddProcessor(std::move(late));
+      ++nprocs;
+    }
+    attached = build_empty ? 0 : sinks.size();
     // keys: a small pool so that the same key is written several times
     size_t nk = static_cast<size_t>(r.range(2, 6));
     for (size_t i = 0; i < nk; ++i)
       keypool.push_back("k" + std::to_string(i) + r.bytes(static_cast<size_t>(r.range(0, 3)), "abc."));
     if (r.chance(1, 6))
       keypool.push_back("");
+  }
+
+  // Hands processors to the provider that already exists: the withheld ones of a provider built
+  // empty (all at once, in their order), otherwise one new simple / batch / nested processor.
+  void add_processor(Rng &r)
+  {
+    if (!withheld.empty())
+    {
+      for (auto &p : withheld)
+      {
+        provider->AddProcessor(std::move(p));
+        ++nprocs;
+      }
+      withheld.clear();
+      desc += " +attached";
+    }
+    else
+    {
+      desc += " +added:";
+      if (r.chance(1, 8))
+      {
+        desc += "(";
+        std::vector<std::unique_ptr<sdklogs::LogRecordProcessor>> inner;
+        size_t k = static_cast<size_t>(r.range(1, 2));
+        for (size_t j = 0; j < k; ++j)
+          inner.push_back(make_proc(r, r.coin(), true));
+        provider->AddProcessor(
+            std::unique_ptr<sdklogs::LogRecordProcessor>(new sdklogs::MultiLogRecordProcessor(std::move(inner))));
+        desc += ")";
+      }
+      else
+        provider->AddProcessor(make_proc(r, r.coin(), true));
+      ++nprocs;
+    }
+    attached = sinks.size();
   }
 
   // end of the case: nothing more may arrive
@@ -2267,6 +2330,8 @@ static Pending create_pending(const ThreadCtx &tc, CaseEnv &env, size_t logger)
   int64_t lo = now_ns();
   p.rec      = env.loggers[logger].l->CreateLogRecord();
   int64_t hi = now_ns();
+  p.nsinks   = env.attached;
+  p.nprocs   = env.nprocs;
   p.m        = fresh_model(tc);
   p.m.obs_lo = lo;
   p.m.obs_hi = hi;
@@ -2399,6 +2464,12 @@ struct SeqCase
       pending = &fresh;
     }
     LoggerInfo &li = env.loggers[logger];
+    // Exporters configured when the record was created must receive it; those of processors added
+    // since then (only possible for a record that waited in `pend`) are not judged.  C13-w4-2.
+    size_t must   = pending ? pending->nsinks : env.attached;
+    bool grown    = li.enabled && must < env.attached;
+    bool from_one = grown && pending->nprocs == 1;
+    bool from_nil = grown && pending->nprocs == 0;
     do_call(env, tc, er, path, logger, pending, arena, m, 0, hooks, hash);
     // the call returned: the caller's storage dies
     if (kill == KILL_SCRIBBLE)
@@ -2413,10 +2484,18 @@ struct SeqCase
       env.provider->ForceFlush();
     R.count("emits");
     R.count(kill == KILL_FREE ? "emits_buffers_freed" : "emits_buffers_scribbled");
-    int bad = 0;
-    for (auto &sp : env.sinks)
+    if (grown)
     {
-      Sink &s = *sp;
+      R.count("emits_of_records_created_before_a_processor_was_added");
+      if (from_one)
+        R.count("emits_of_records_created_under_one_processor_emitted_under_several");
+      if (from_nil)
+        R.count("emits_of_records_created_under_no_processor_emitted_under_some");
+    }
+    int bad = 0;
+    for (size_t si = 0; si < env.attached; ++si)
+    {
+      Sink &s = *env.sinks[si];
       std::unique_lock<std::mutex> g(s.mu);
       size_t fresh_n = s.caps.size() - s.seen;
       std::vector<Cap> got(s.caps.begin() + static_cast<long>(s.seen), s.caps.end());
@@ -2432,12 +2511,21 @@ struct SeqCase
         }
         continue;
       }
+      if (si >= must)
+      {
+        R.count(fresh_n ? "processor_added_after_creation_received_dontcare"
+                        : "processor_added_after_creation_not_received_dontcare");
+        continue;
+      }
       if (fresh_n != 1)
       {
-        R.violation("delivered-once", s.kind + (fresh_n ? ":duplicate" : ":missing"),
+        R.violation("delivered-once",
+                    s.kind + (fresh_n ? ":duplicate" : ":missing") + (grown ? ":processor-added-before-emit" : ""),
                     m.desc + " [" + env.desc + "]: " + std::to_string(fresh_n) + " deliveries to this processor's exporter");
         ++bad;
       }
+      else if (grown)
+        R.count("deliveries_of_records_created_before_a_processor_was_added");
       for (auto &c : got)
         bad += compare(m, c, s, li, env, kill == KILL_SCRIBBLE);
     }
@@ -2472,18 +2560,21 @@ struct SeqCase
     if (trace.size() < 400)
       trace += std::string(path == PATH_ARGS ? "emit-args" : (path == PATH_SETTERS ? "emit-setters" : "emit-record+args")) +
                (env.loggers[logger].enabled ? " " : "(disabled) ");
-    bool clean = pass(sub, path, logger, pending, KILL_SCRIBBLE);
+    // a record that waited while a processor was added is not judged at that processor's exporter
+    bool partial = pending && env.loggers[logger].enabled && pending->nsinks < env.attached;
+    bool clean   = pass(sub, path, logger, pending, KILL_SCRIBBLE);
     if (kill == KILL_FREE)
     {
       // same arguments again (same sub-seed), this time the buffers are freed — but only if the
-      // value-level pass found nothing, so a known ownership finding never becomes a crash
-      if (clean)
+      // value-level pass found nothing AND looked at every exporter the second record reaches, so
+      // a known ownership finding never becomes a crash
+      if (clean && !partial)
       {
         pass(sub, path, logger, nullptr, KILL_FREE);
         R.count("free_passes");
       }
       else
-        R.count("free_pass_skipped_after_finding");
+        R.count(clean ? "free_pass_skipped_not_every_exporter_judged" : "free_pass_skipped_after_finding");
     }
   }
 
@@ -2519,10 +2610,31 @@ struct SeqCase
   {
     auto &R = vf::report();
     Rng r(seed);
+    // Processors added to the existing provider (C13-w4-2) are decided from a stream of their own,
+    // so the programs themselves are the same as without them.
+    Rng ar(vf::mix(seed, 0xadd9c13));
+    env.build_empty = ar.chance(1, 24);
     env.build(r);
+    unsigned adds_left = ar.chance(1, 3) ? (ar.chance(1, 4) ? 2 : 1) : 0;
+    if (env.build_empty && !adds_left)
+      adds_left = 1;
     size_t nops = static_cast<size_t>(r.range(10, 28));
     for (size_t op = 0; op < nops; ++op)
     {
+      // add a processor at a seeded point at which a record of an enabled logger is created and not
+      // yet emitted; a provider built empty gets its processors half way through at the latest
+      bool waiting = false;
+      for (auto &p : pend)
+        waiting |= env.loggers[p.logger].enabled;
+      if ((adds_left && waiting && ar.chance(1, 3)) || (!env.withheld.empty() && op == nops / 2))
+      {
+        env.add_processor(ar);
+        if (adds_left)
+          --adds_left;
+        hash = vf::mix(hash, 7700 + env.attached);
+        trace += "add-processor ";
+        R.count(waiting ? "processors_added_while_a_record_was_pending" : "processors_added_no_record_pending");
+      }
       unsigned k = static_cast<unsigned>(r.below(100));
       if (k < 18)
       {
